@@ -25,6 +25,9 @@ def generate(tier, rng):
     for i in range(n):
         o_force = {"policy": rng.choice(["sync", "sync", "router"]), "resp": "fixed", "translate": rng.choice([0, 1]),
                    "filter": "all", "autodisc": 0}
+        if o_force["policy"] == "sync":
+            # every send variant: buffered body, caller-owned buffers
+            o_force["ansovl"] = rng.choice(["body", "body", "bufs"])
         line, o = gen_sim.server_line(rng, o_force)
         lines = [line, "accept"]
         if o["flavour"] == "ssl":
